@@ -51,7 +51,7 @@ func CheckC02(c *core.Case) error {
 	if e := c02Compare("fresh buffer", p, err, end); e != nil {
 		return e
 	}
-	b := primedBuffer()
+	b := replayBuffer(c)
 	for _, s := range c.Steps {
 		rjson.SkipValue(s.In, b)
 	}
@@ -95,8 +95,12 @@ func (s *c02State) input(kind string, in []byte) error {
 	}
 	p, err = rjson.SkipValue(in, &s.used)
 	if e := c02Compare("long-lived buffer", p, err, end); e != nil {
-		return &caseErr{&core.Case{Prop: "C02", Kind: kind, In: append([]byte(nil), in...), Steps: s.hist.steps("C02")}, e}
+		return &caseErr{&core.Case{Prop: "C02", Kind: kind, In: append([]byte(nil), in...), Steps: s.hist.steps("C02"), Strs: []string{freshHistory}}, e}
 	}
 	s.hist.add(in)
+	if s.hist.full() {
+		s.used = rjson.Buffer{}
+		s.hist.reset()
+	}
 	return nil
 }
